@@ -28,7 +28,8 @@ RULE = ("lattice cases (every input residue name x position x force field) and s
         "hydrogens, nucleic strands; options default / noopt / nodebump / both / drop-water / neutral termini. "
         "Non-trivial: added atom whose residue is terminal, rebuilt, optimisable (SER/THR/TYR/CYS/HIS/ASN/GLN/ASH/GLH/"
         "water/Lys/Arg/termini) or nucleic; distinct = (residue base, position, atom name, rebuilt-heavy?, option class)"
-        ' Round-2 additions: long real stretches; backbone gaps (residues deleted mid-chain, no TER); deleted backbone atoms (O, C+O, N, C); pKa route; neighbour anchors (N+1/C-1) must be bonded (<= 2.0 A); fit-residual allowance capped at 0.5 A; coincidence judged at 0.1 A.')
+        ' Round-2 additions: long real stretches; backbone gaps (residues deleted mid-chain, no TER); deleted backbone atoms (O, C+O, N, C); pKa route; neighbour anchors (N+1/C-1) must be bonded (<= 2.0 A); fit-residual allowance capped at 0.5 A; coincidence judged at 0.1 A.'
+        ' Round-3/4 additions: unequal carboxyl C-O bonds; carbon obstacles at polar / terminal hydrogen sites; PRO.')
 ASSUMPTIONS = ["parent and 1-3 partners of an added atom come from the harness' own parse of the topology XML for the "
                "independently derived final state",
                "tolerance = 0.02 A + local input distortion (largest discrepancy between structure and template over "
